@@ -232,6 +232,89 @@ func guardsOfBlock(blk *ssa.BasicBlock) []fact {
 				continue
 			}
 			if s == blk || s.Dominates(blk) {
+				ft := fact{Cond: iff.Cond, Val: k == 0, If: iff}
+				out = append(out, ft)
+				out = append(out, shortCircuitFacts(ft, 0)...)
+			}
+		}
+	}
+	return out
+}
+
+// shortCircuitFacts: a fact on a value computed by && or || (a phi of constants and one operand) implies the
+// facts of its operands: (a && b) true gives a true and b true; (a || b) false gives a false and b false.
+func shortCircuitFacts(ft fact, depth int) []fact {
+	if depth > 4 {
+		return nil
+	}
+	c, v := ft.Cond, ft.Val
+	for {
+		u, ok := c.(*ssa.UnOp)
+		if ok && u.Op == token.NOT {
+			c, v = u.X, !v
+			continue
+		}
+		break
+	}
+	ph, ok := c.(*ssa.Phi)
+	if !ok || ph.Type().String() != "bool" {
+		return nil
+	}
+	var out []fact
+	for i, e := range ph.Edges {
+		if cst, isC := e.(*ssa.Const); isC {
+			if cst.Value != nil && (cst.Value.String() == "true") == v {
+				return nil // the constant edge may have produced this value: nothing is implied
+			}
+			continue
+		}
+		// the value came in on a non-constant edge: if there is exactly one, it has the value v
+		nonConst := 0
+		for _, e2 := range ph.Edges {
+			if _, isC := e2.(*ssa.Const); !isC {
+				nonConst++
+			}
+		}
+		if nonConst != 1 {
+			return nil
+		}
+		pred := ph.Block().Preds[i]
+		f2 := fact{Cond: e, Val: v, If: ft.If}
+		out = append(out, f2)
+		out = append(out, shortCircuitFacts(f2, depth+1)...)
+		out = append(out, guardsOfBlockNoExpand(pred)...)
+		out = append(out, lastBranchFactCfg(pred, ph.Block())...)
+	}
+	return out
+}
+
+func lastBranchFactCfg(pred, succ *ssa.BasicBlock) []fact {
+	iff, ok := pred.Instrs[len(pred.Instrs)-1].(*ssa.If)
+	if !ok || pred.Succs[0] == pred.Succs[1] {
+		return nil
+	}
+	if pred.Succs[0] == succ {
+		return []fact{{Cond: iff.Cond, Val: true, If: iff}}
+	}
+	if pred.Succs[1] == succ {
+		return []fact{{Cond: iff.Cond, Val: false, If: iff}}
+	}
+	return nil
+}
+
+func guardsOfBlockNoExpand(blk *ssa.BasicBlock) []fact {
+	var out []fact
+	f := blk.Parent()
+	for _, b := range f.Blocks {
+		if len(b.Instrs) == 0 {
+			continue
+		}
+		iff, ok := b.Instrs[len(b.Instrs)-1].(*ssa.If)
+		if !ok || b.Succs[0] == b.Succs[1] {
+			continue
+		}
+		for k, s := range b.Succs {
+			if len(s.Preds) == 1 && (s == blk || s.Dominates(blk)) {
 				out = append(out, fact{Cond: iff.Cond, Val: k == 0, If: iff})
 			}
 		}
